@@ -105,6 +105,17 @@ class Rig:
             return [(k, d) for u, k, d in self.events if u == username]
 
     def start(self):
+        # rig tuning of the LIBRARY (not of the code under test): paramiko waits 15 s for an ssh banner; a retry on a
+        # socket that already carried a handshake (histories) never gets one, 4 s is plenty on loopback
+        import logging, paramiko
+        logging.getLogger("paramiko").addHandler(logging.NullHandler())
+        logging.getLogger("paramiko").propagate = False
+        self._orig_init = paramiko.Transport.__init__
+
+        def quick_banner(tself, *a, _orig=self._orig_init, **k):
+            _orig(tself, *a, **k)
+            tself.banner_timeout = 4
+        paramiko.Transport.__init__ = quick_banner
         try:
             kw = {"key_size": 2048} if self.host_key_type == "ssh-rsa" else {}
             self.host_key = asyncssh.generate_private_key(self.host_key_type, **kw)
@@ -148,6 +159,10 @@ class Rig:
         return self
 
     def stop(self):
+        import paramiko
+        if getattr(self, "_orig_init", None):
+            paramiko.Transport.__init__ = self._orig_init
+            self._orig_init = None
         if self.loop:
             def down():
                 self.server.close()
@@ -223,6 +238,74 @@ class Rig:
             except Exception:
                 pass
         return out, self._settle(user)
+
+    # ---- histories: several open() attempts on ONE transport object
+    def _delta(self, user, before):
+        cur = self._settle(user)
+        return cur[before:], len(cur)
+
+    def history_paramiko(self, auth, strict, kh, attempts):
+        """attempts: [{"close": bool, "text": known_hosts content}] -> [(outcome, server events during that attempt)]"""
+        from scrapli.transport.plugins.paramiko.transport import ParamikoTransport, PluginTransportArgs
+        user = self.next_user()
+        base = self._base()
+        base.timeout_socket = 5
+        t = ParamikoTransport(base, PluginTransportArgs(**self._args(auth, user, strict, kh)))
+        res, n = [], 0
+        try:
+            for att in attempts:
+                if att.get("close"):
+                    try:
+                        t.close()
+                    except Exception:
+                        pass
+                with open(kh, "w") as f:
+                    f.write(att["text"])
+                try:
+                    t.open()
+                    out = "ok"
+                except Exception as e:
+                    out = type(e).__name__
+                seen, n = self._delta(user, n)
+                res.append((out, seen))
+        finally:
+            try:
+                if t.session:
+                    t.session.close()
+                if t.socket:
+                    t.socket.close()
+            except Exception:
+                pass
+        return res
+
+    async def history_asyncssh(self, auth, strict, kh, attempts):
+        from scrapli.transport.plugins.asyncssh.transport import AsyncsshTransport, PluginTransportArgs
+        user = self.next_user()
+        t = AsyncsshTransport(self._base(), PluginTransportArgs(**self._args(auth, user, strict, kh)))
+        res, n = [], 0
+        try:
+            for att in attempts:
+                if att.get("close"):
+                    try:
+                        t.close()
+                    except Exception:
+                        pass
+                with open(kh, "w") as f:
+                    f.write(att["text"])
+                try:
+                    await t.open()
+                    out = "ok"
+                except Exception as e:
+                    out = type(e).__name__
+                await asyncio.sleep(0)
+                seen, n = self._delta(user, n)
+                res.append((out, seen))
+        finally:
+            try:
+                t.close()
+            except Exception:
+                pass
+        return res
 
     def _settle(self, user):
         """the client call has returned, so every auth request it sent has been *sent*; give the
